@@ -4,8 +4,8 @@
    The model (Auth.v: step / run) mirrors humphrey-auth's AuthProvider<Vec<User>>, Session, User and the closure of
    with_auth_route, AFTER the repairs "refresh_session rejects a token that has already expired" and "session expiry
    saturates". What is outside the code is quantified over, never assumed away:
-     H, hash, verify_hash          Argon2, with the single hypothesis that a hash verifies exactly the password and pepper
-                                   it was made from;
+     H, hash, verify_hash          Argon2, with the single hypothesis that a hash verifies exactly the password and secret
+                                   it was made from (secret_of: no pepper = the empty secret, as for the real Argon2);
      the inputs of each operation  every clock reading, every RNG draw (token, uid, salt);
      clock_ok / rng_ok / env_ok    the clock does not go back / the RNG never repeats a token.
    All theorems hold for every configuration and every history (list of operations) of any length. *)
@@ -19,7 +19,7 @@ Open Scope N_scope.
    related (R is the abstraction: same configuration; the same uids exist; same session per uid; the stored hash is a
    hash of the reference's password). No panic site is reachable: the reference has no Crash result. *)
 Theorem C17_step_refines :
-  forall (H : Type) (hash : pwd -> N -> pepper -> H) (verify_hash : H -> pwd -> pepper -> bool),
+  forall (H : Type) (hash : pwd -> N -> list N -> H) (verify_hash : H -> pwd -> list N -> bool),
     (forall pw salt pep pw' pep', verify_hash (hash pw salt pep) pw' pep' = true <-> pw' = pw /\ pep' = pep) ->
     forall (s : state H) (r : rstate) (o : op) (s' : state H) (x : out),
       wf H (users s) -> R H hash s r -> tok_unique r ->
@@ -29,7 +29,7 @@ Proof. exact step_refines. Qed.
 
 (* Whole histories from the empty database: the outputs of the model are outputs of the reference, step by step. *)
 Theorem C17_run_refines :
-  forall (H : Type) (hash : pwd -> N -> pepper -> H) (verify_hash : H -> pwd -> pepper -> bool),
+  forall (H : Type) (hash : pwd -> N -> list N -> H) (verify_hash : H -> pwd -> list N -> bool),
     (forall pw salt pep pw' pep', verify_hash (hash pw salt pep) pw' pep' = true <-> pw' = pw /\ pep' = pep) ->
     forall (c : config) (ops : list op), rng_ok ops ->
       exists r, rrun (rinit c) ops (snd (run H hash verify_hash (init H c) ops)) r /\
@@ -43,7 +43,7 @@ Proof. exact rstep_out_deterministic. Qed.
 
 (* No panic site of the modelled code (unwrap of a session, unwrap of update_user) is reachable in any history. *)
 Theorem C17_never_crashes :
-  forall (H : Type) (hash : pwd -> N -> pepper -> H) (verify_hash : H -> pwd -> pepper -> bool),
+  forall (H : Type) (hash : pwd -> N -> list N -> H) (verify_hash : H -> pwd -> list N -> bool),
     (forall pw salt pep pw' pep', verify_hash (hash pw salt pep) pw' pep' = true <-> pw' = pw /\ pep' = pep) ->
     forall (c : config) (ops : list op), rng_ok ops ->
       forall x, In x (snd (run H hash verify_hash (init H c) ops)) -> is_crash x = false.
@@ -51,21 +51,22 @@ Proof. exact never_crashes. Qed.
 
 (* ---------------------------------------------------------------------------------------------------
    2. Passwords. cred_status reads off the history alone which (password, pepper) uid u was last created with and
-   whether it has been removed since. verify answers true exactly for that password under the pepper now configured. *)
+   whether it has been removed since. verify answers true exactly for that password under the pepper now configured
+   (an empty pepper and no pepper are the same Argon2 secret). *)
 Theorem C17_verify_only_owner :
-  forall (H : Type) (hash : pwd -> N -> pepper -> H) (verify_hash : H -> pwd -> pepper -> bool),
+  forall (H : Type) (hash : pwd -> N -> list N -> H) (verify_hash : H -> pwd -> list N -> bool),
     (forall pw salt pep pw' pep', verify_hash (hash pw salt pep) pw' pep' = true <-> pw' = pw /\ pep' = pep) ->
     forall (c : config) (pre : list op) (u : N) (pw : pwd), rng_ok pre ->
       exists b, snd (step H hash verify_hash (fst (run H hash verify_hash (init H c) pre)) (Verify u pw)) = Ok (VBool b) /\
                 (b = true <->
                  cred_status c (history H hash verify_hash c pre) u =
-                 Some (pw, c_pepper (cfg (fst (run H hash verify_hash (init H c) pre))))).
+                 Some (pw, secret_of (c_pepper (cfg (fst (run H hash verify_hash (init H c) pre)))))).
 Proof. exact verify_verdict. Qed.
 
 (* A password verifies only for a user that was created with it: if verify(u, pw) is true, the history contains the
    successful create_user call with password pw that returned uid u. *)
 Theorem C17_verified_password_is_the_users_own :
-  forall (H : Type) (hash : pwd -> N -> pepper -> H) (verify_hash : H -> pwd -> pepper -> bool),
+  forall (H : Type) (hash : pwd -> N -> list N -> H) (verify_hash : H -> pwd -> list N -> bool),
     (forall pw salt pep pw' pep', verify_hash (hash pw salt pep) pw' pep' = true <-> pw' = pw /\ pep' = pep) ->
     forall (c : config) (pre : list op) (u : N) (pw : pwd), rng_ok pre ->
       snd (step H hash verify_hash (fst (run H hash verify_hash (init H c) pre)) (Verify u pw)) = Ok (VBool true) ->
@@ -74,7 +75,7 @@ Proof. exact verified_password_is_the_users_own. Qed.
 
 (* create_user succeeds and returns the uid drawn for it whenever that uid has not been drawn before (v4 UUIDs). *)
 Theorem C17_create_user_fresh_uid_succeeds :
-  forall (H : Type) (hash : pwd -> N -> pepper -> H) (verify_hash : H -> pwd -> pepper -> bool),
+  forall (H : Type) (hash : pwd -> N -> list N -> H) (verify_hash : H -> pwd -> list N -> bool),
     (forall pw salt pep pw' pep', verify_hash (hash pw salt pep) pw' pep' = true <-> pw' = pw /\ pep' = pep) ->
     forall (c : config) (pre : list op) (pw : pwd) (fu salt : N),
       rng_ok pre -> ~ In fu (fresh_uids pre) ->
@@ -88,7 +89,7 @@ Proof. exact create_user_fresh_uid_succeeds. Qed.
    newer session — or if it was never issued. Every operation that presents a token (get_uid_by_token, the auth route,
    refresh_session) answers exactly by that reading: accepted for the owner iff standing and now < expiry. *)
 Theorem C17_token_owner_only_while_valid :
-  forall (H : Type) (hash : pwd -> N -> pepper -> H) (verify_hash : H -> pwd -> pepper -> bool),
+  forall (H : Type) (hash : pwd -> N -> list N -> H) (verify_hash : H -> pwd -> list N -> bool),
     (forall pw salt pep pw' pep', verify_hash (hash pw salt pep) pw' pep' = true <-> pw' = pw /\ pep' = pep) ->
     forall (c : config) (pre : list op) (o : op) (t now : N),
       rng_ok pre -> presents o = Some (t, now) ->
@@ -99,7 +100,7 @@ Proof. exact token_verdict. Qed.
 (* What tok_status means, clause by clause. (a) Exactly its owner: an accepted token was issued, by a successful
    create_session, to the very user it authenticates. *)
 Theorem C17_accepted_token_was_issued_to_that_user :
-  forall (H : Type) (hash : pwd -> N -> pepper -> H) (verify_hash : H -> pwd -> pepper -> bool),
+  forall (H : Type) (hash : pwd -> N -> list N -> H) (verify_hash : H -> pwd -> list N -> bool),
     (forall pw salt pep pw' pep', verify_hash (hash pw salt pep) pw' pep' = true <-> pw' = pw /\ pep' = pep) ->
     forall (c : config) (pre : list op) (o : op) (t now u : N),
       rng_ok pre -> presents o = Some (t, now) ->
@@ -111,7 +112,7 @@ Proof. exact accepted_was_issued_to. Qed.
    (operations that do not touch t or u), t authenticates u strictly before now2 + lifetime (saturating at 2^64-1), and is
    rejected from then on. *)
 Theorem C17_issued_token_valid_until_expiry :
-  forall (H : Type) (hash : pwd -> N -> pepper -> H) (verify_hash : H -> pwd -> pepper -> bool),
+  forall (H : Type) (hash : pwd -> N -> list N -> H) (verify_hash : H -> pwd -> list N -> bool),
     (forall pw salt pep pw' pep', verify_hash (hash pw salt pep) pw' pep' = true <-> pw' = pw /\ pep' = pep) ->
     forall (c : config) (pre0 : list op) (u life n0 n2 t : N) (mid : list op) (o : op) (now : N),
       rng_ok (pre0 ++ CreateSessionLt u life n0 n2 t :: mid) ->
@@ -124,7 +125,7 @@ Theorem C17_issued_token_valid_until_expiry :
 Proof. exact issued_token_verdict. Qed.
 
 Theorem C17_issued_default_token_valid_until_expiry :
-  forall (H : Type) (hash : pwd -> N -> pepper -> H) (verify_hash : H -> pwd -> pepper -> bool),
+  forall (H : Type) (hash : pwd -> N -> list N -> H) (verify_hash : H -> pwd -> list N -> bool),
     (forall pw salt pep pw' pep', verify_hash (hash pw salt pep) pw' pep' = true <-> pw' = pw /\ pep' = pep) ->
     forall (c : config) (pre0 : list op) (u n0 n2 t : N) (mid : list op) (o : op) (now : N),
       rng_ok (pre0 ++ CreateSession u n0 n2 t :: mid) ->
@@ -139,7 +140,7 @@ Proof. exact issued_default_token_verdict. Qed.
 
 (* (c) Until it is invalidated: after invalidate_session t, t is rejected for good (unless the RNG draws it again). *)
 Theorem C17_rejected_after_invalidation :
-  forall (H : Type) (hash : pwd -> N -> pepper -> H) (verify_hash : H -> pwd -> pepper -> bool),
+  forall (H : Type) (hash : pwd -> N -> list N -> H) (verify_hash : H -> pwd -> list N -> bool),
     (forall pw salt pep pw' pep', verify_hash (hash pw salt pep) pw' pep' = true <-> pw' = pw /\ pep' = pep) ->
     forall (c : config) (pre0 : list op) (t : N) (mid : list op) (o : op) (now : N),
       rng_ok (pre0 ++ InvalidateSession t :: mid) -> ~ In t (fresh_toks mid) ->
@@ -151,7 +152,7 @@ Proof. exact rejected_after_invalidation. Qed.
 (* (d) Until the user is removed (or their session invalidated by uid): a token standing for u is rejected for good after
    remove_user u / invalidate_user_session u. *)
 Theorem C17_rejected_after_owner_removed_or_invalidated :
-  forall (H : Type) (hash : pwd -> N -> pepper -> H) (verify_hash : H -> pwd -> pepper -> bool),
+  forall (H : Type) (hash : pwd -> N -> list N -> H) (verify_hash : H -> pwd -> list N -> bool),
     (forall pw salt pep pw' pep', verify_hash (hash pw salt pep) pw' pep' = true <-> pw' = pw /\ pep' = pep) ->
     forall (c : config) (pre0 : list op) (t u x0 : N) (o1 : op) (mid : list op) (o : op) (now : N),
       o1 = RemoveUser u \/ o1 = InvalidateUser u ->
@@ -166,7 +167,7 @@ Proof. exact rejected_after_owner_gone. Qed.
    nothing, or its expiry is not after now, get_uid_by_token / the auth route / refresh_session return InvalidToken /
    401 / InvalidToken and leave the state as it was. *)
 Theorem C17_expired_or_unknown_rejected_everywhere :
-  forall (H : Type) (hash : pwd -> N -> pepper -> H) (verify_hash : H -> pwd -> pepper -> bool),
+  forall (H : Type) (hash : pwd -> N -> list N -> H) (verify_hash : H -> pwd -> list N -> bool),
     (forall pw salt pep pw' pep', verify_hash (hash pw salt pep) pw' pep' = true <-> pw' = pw /\ pep' = pep) ->
     forall (c : config) (pre : list op) (o : op) (t now : N),
       rng_ok pre -> presents o = Some (t, now) ->
@@ -179,7 +180,7 @@ Proof. exact expired_or_unknown_rejected. Qed.
    between (refresh included), as long as the clock does not go back and the RNG does not draw t again. This is the
    statement the unrepaired refresh_session violates (C17_refresh_old_refuted). *)
 Theorem C17_rejected_tokens_stay_rejected :
-  forall (H : Type) (hash : pwd -> N -> pepper -> H) (verify_hash : H -> pwd -> pepper -> bool),
+  forall (H : Type) (hash : pwd -> N -> list N -> H) (verify_hash : H -> pwd -> list N -> bool),
     (forall pw salt pep pw' pep', verify_hash (hash pw salt pep) pw' pep' = true <-> pw' = pw /\ pep' = pep) ->
     forall (c : config) (ops1 : list op) (o1 : op) (ops2 : list op) (t now1 : N),
       env_ok (ops1 ++ o1 :: ops2) -> presents o1 = Some (t, now1) -> ~ In t (fresh_toks ops2) ->
@@ -195,7 +196,7 @@ Proof. exact dead_stays_dead. Qed.
    5. A user has at most one live session: in any reachable state two tokens accepted for the same user are the same
    token; equivalently at most one token stands for a user. *)
 Theorem C17_at_most_one_live_session :
-  forall (H : Type) (hash : pwd -> N -> pepper -> H) (verify_hash : H -> pwd -> pepper -> bool),
+  forall (H : Type) (hash : pwd -> N -> list N -> H) (verify_hash : H -> pwd -> list N -> bool),
     (forall pw salt pep pw' pep', verify_hash (hash pw salt pep) pw' pep' = true <-> pw' = pw /\ pep' = pep) ->
     forall (c : config) (ops : list op) (t1 t2 now1 now2 u : N), rng_ok ops ->
       get_uid_by_token H (fst (run H hash verify_hash (init H c) ops)) t1 now1 = Ok (VId u) ->
@@ -203,7 +204,7 @@ Theorem C17_at_most_one_live_session :
 Proof. exact one_session_per_user. Qed.
 
 Theorem C17_at_most_one_standing_token_per_user :
-  forall (H : Type) (hash : pwd -> N -> pepper -> H) (verify_hash : H -> pwd -> pepper -> bool),
+  forall (H : Type) (hash : pwd -> N -> list N -> H) (verify_hash : H -> pwd -> list N -> bool),
     (forall pw salt pep pw' pep', verify_hash (hash pw salt pep) pw' pep' = true <-> pw' = pw /\ pep' = pep) ->
     forall (c : config) (ops : list op) (t1 t2 u x1 x2 : N), rng_ok ops ->
       tok_status c (history H hash verify_hash c ops) t1 = Some (u, x1) ->
@@ -214,13 +215,13 @@ Proof. exact one_standing_token_per_user. Qed.
    6. Tokens never repeat: the tokens returned by successful create_session calls along a history are pairwise distinct,
    and each is the RNG draw handed to that call (the 32 random bytes; their hex form is checked on the real code). *)
 Theorem C17_tokens_never_repeat :
-  forall (H : Type) (hash : pwd -> N -> pepper -> H) (verify_hash : H -> pwd -> pepper -> bool)
+  forall (H : Type) (hash : pwd -> N -> list N -> H) (verify_hash : H -> pwd -> list N -> bool)
          (c : config) (ops : list op),
     rng_ok ops -> NoDup (issued (history H hash verify_hash c ops)).
 Proof. exact issued_tokens_nodup. Qed.
 
 Theorem C17_tokens_come_from_the_rng :
-  forall (H : Type) (hash : pwd -> N -> pepper -> H) (verify_hash : H -> pwd -> pepper -> bool)
+  forall (H : Type) (hash : pwd -> N -> list N -> H) (verify_hash : H -> pwd -> list N -> bool)
          (c : config) (ops : list op) (t : N),
     In t (issued (history H hash verify_hash c ops)) -> In t (fresh_toks ops).
 Proof. exact issued_tokens_from_rng. Qed.
